@@ -267,3 +267,34 @@ def _call_key(e):
     t = e.get("teams")
     k["teams"] = json.dumps(t, sort_keys=True)[:0] + (json.dumps([[l.get("ref") for l in tm.get("items", [])] for tm in t.get("items", [])]) if t and t.get("t") == "list" else "")
     return k
+
+
+def apalache_outcome(run, sizes, negative=False):
+    """Symbolic check (Apalache, unbounded integers) that the outcome pipeline equals the rule and depends on the
+    rank values only through their weak order, for every vector of the given lengths.  Auxiliary to the TLC checks."""
+    import shutil
+    import subprocess
+
+    exe = shutil.which("apalache-mc")
+    if not exe:
+        run.notes.append("apalache-mc not found: symbolic outcome check skipped")
+        return None
+    results = []
+    for n in sizes:
+        out_dir = os.path.join(run.wd, "apalache-n%s" % n)
+        cinit = "CInitNeg" if negative else "CInit%d" % n
+        t0 = time.time()
+        r = subprocess.run([exe, "check", "--cinit=" + cinit, "--inv=Inv", "--length=0", "--out-dir=" + out_dir,
+                            os.path.join(tlc.SPEC, "OutcomeInt.tla")], capture_output=True, text=True, timeout=3600, cwd=run.wd)
+        ok = "EXITCODE: OK" in r.stdout
+        err = "Checker has found an error" in r.stdout
+        shutil.rmtree(out_dir, ignore_errors=True)
+        if negative:
+            results.append(err)
+            continue
+        if not ok:
+            raise MachineryError("Apalache did not establish OutcomeInt!Inv for N=%d:\n%s" % (n, r.stdout[-1500:]))
+        run.mc_runs.append({"module": "OutcomeInt", "tool": "apalache-mc 0.58 (symbolic, unbounded Int values)", "instance": "N=%d" % n,
+                            "invariant": "PosIsPermutation /\\ PipelineIsRule /\\ OrderOnly", "result": "no error", "wall_s": round(time.time() - t0, 1)})
+        results.append(True)
+    return results
